@@ -3385,7 +3385,9 @@ Boolean PushSymbol(tStrComp const* pSymName, tStrComp const* pStackName) {
 
     Elem             = (PSymbolStackEntry)malloc(sizeof(TSymbolStackEntry));
     Elem->Next       = LStack->Contents;
-    Elem->Contents   = pSrc->SymWert;
+    /* own copy of the value: a string value would otherwise share its buffer with the symbol */
+    as_tempres_ini(&Elem->Contents);
+    as_tempres_copy(&Elem->Contents, &pSrc->SymWert);
     LStack->Contents = Elem;
 
     return True;
@@ -3446,8 +3448,9 @@ Boolean PopSymbol(tStrComp const* pSymName, tStrComp const* pStackName) {
                         &pDest->SymWert.Contents.str, &Elem->Contents.Contents.str)))) {
         WrStrErrorPos(ErrNum_ConstantRedefinedAsVariable, pSymName);
     } else {
-        pDest->SymWert = Elem->Contents;
+        as_tempres_copy(&pDest->SymWert, &Elem->Contents);
     }
+    as_tempres_free(&Elem->Contents);
     LStack->Contents = Elem->Next;
     if (!LStack->Contents) {
         if (!PStack) {
@@ -3475,6 +3478,7 @@ void ClearStacks(void) {
         while (Act->Contents) {
             Elem          = Act->Contents;
             Act->Contents = Elem->Next;
+            as_tempres_free(&Elem->Contents);
             free(Elem);
             z++;
         }
